@@ -730,7 +730,11 @@ func (fx *FuncCtx) atReturn(st *State, ins *ssa.Return, vals []*Val) {
 	env.fn = nil
 	for _, c := range fx.ct.Ensures {
 		t := fx.evalClause(c, env)
-		ob := fx.oblige(st, "post", fmt.Sprintf("post:%s@ret%d", c.Label, k), t, ins.Pos(), false)
+		label := c.Label
+		if c.Alt != "" {
+			label = strings.ReplaceAll(c.Alt, "/", ".") + "." + c.Label
+		}
+		ob := fx.oblige(st, "post", fmt.Sprintf("post:%s@ret%d", label, k), t, ins.Pos(), false)
 		fx.tagClause(ob, c)
 		if ob != nil {
 			ob.AltGrp = c.Alt
